@@ -245,6 +245,10 @@ func (e *SpecEnv) evalIdent(name string) Val {
 	if v, ok := e.st.ghosts[name]; ok {
 		return v
 	}
+	if tn, ok := g.W.globalGhosts[name]; ok {
+		s, t := g.specType(tn, e.pkg())
+		return Val{T: g.heapGet(e.st, "GG_"+name, s.SMT()), S: s, G: t}
+	}
 	if e.results != nil {
 		if name == "result" && len(e.results) >= 1 {
 			return e.results[0]
@@ -826,6 +830,11 @@ func (e *SpecEnv) assignLocs(x Expr) [][2]string {
 			return [][2]string{{dn, b.T}, {vn, b.T}}
 		}
 	case EIdent:
+		if tn, ok := g.W.globalGhosts[n.Name]; ok {
+			s, _ := g.specType(tn, e.pkg())
+			g.heapGet(e.st, "GG_"+n.Name, s.SMT())
+			return [][2]string{{"GG_" + n.Name, ""}}
+		}
 		b := e.eval(n)
 		if b.G != nil {
 			if p, ok := b.G.Underlying().(*types.Pointer); ok {
